@@ -227,6 +227,4 @@ def _place_only(b, o, baseline_keys):
 
 
 def replay(path):
-    d = json.load(open(path))
-    print(json.dumps(d["violations"][:3], indent=1)[:3000])
-    return 1
+    return C.generic_replay(path)
